@@ -211,6 +211,12 @@ func c07Tillage(p *Prog, r *Report) {
 				trip := stripInt(shi).Sub(stripInt(slo)).Add(PInt(1))
 				okD = stripInt(D).Equal(trip)
 			}
+			// both the summation and the redistribution are unconditional within their loops
+			uncond := len(inLoopGuards(acc, S)) == 0 && len(inLoopGuards(e, M)) == 0
+			if !uncond {
+				swhy += fmt.Sprintf(" — the pool is summed or written back only under {%s %s}: the layers left out keep their share while the divisor counts them", guardKeysOf(inLoopGuards(acc, S)), guardKeysOf(inLoopGuards(e, M)))
+			}
+			okAcc = okAcc && uncond
 			r.Ob("mix:"+shortRoot(A), pos, okAcc && zero && okB && okD, fmt.Sprintf("sum over z=%s..%s of %s (accumulates %s, starts at zero: %v); redistributed over z=%s..%s divided by %s; bounds agree: %v, divisor equals trip count: %v %s%s", polyOr(slo), polyOr(shi), shortRoot(A), d, zero, polyOr(mlo), polyOr(mhi), D, okB, okD, swhy, mwhy))
 		}
 		if !found {
